@@ -68,6 +68,14 @@ CHECKS = {
         "Trusted: CPython. Termination is only checked up to a 20 s watchdog; recursion depth is bounded by construction (one recursive template, inputs <= 5).",
         "5/C07",
     ),
+    "C08": (
+        "exploration", "engine",
+        "exhaustive enumeration of (rewrite site x rewrite kind) over the bundled grammars x a fixed finite corpus incl. all prefixes; metamorphic oracle rewritten == original",
+        "Sites are read off the meta-grammar's own parse tree of each bundled .pest file (every untagged term, every rule-body / parenthesised / PUSH expression, every run of >= 3 sequence terms or alternatives); each site gets redundant parentheses, (e)|(e), ((e)~NEVER)|(e), (!(e)~NEVER)|(e), "
+        "extraction into a fresh silent rule, and every re-association split. The rewritten grammar must give the same outcome and tree as the original on every corpus input (examples, pest-derived test inputs, short valid/invalid inputs and all their prefixes) in the same mode.",
+        "Trusted: the text surgery is always parenthesised; the NEVER literal is checked absent from the corpus. Single rewrites only (no pairs). quick runs the generated modes only for the six small grammars.",
+        "5/C08",
+    ),
     "C09": (
         "model_checking", "bfs",
         "explicit-state BFS over the real Stack / SnapshottingInt / ParserState objects in lock-step with a full-copy reference model",
@@ -116,6 +124,14 @@ CHECKS = {
         "The domain is finite and fully enumerated, which is the exhaustive half of the property's quantifier.",
         "Trusted: str.count/rfind arithmetic oracle. Not covered: texts longer than the bound, the 'sampled long and non-ASCII texts' clause, line breaks other than \\n.",
         "5/C14",
+    ),
+    "C15": (
+        "model_checking", "sched",
+        "explicit-state search over all API histories (each replayed in a forked pristine process) + exhaustive exploration of thread schedules of real threads under a cooperative settrace scheduler (preemption-bounded)",
+        "Histories: every sequence of up to d operations from {create unoptimised / default-optimised / custom-pass parser for g1 or g2, generate a module, succeeding parse, failing parse} is replayed from scratch in its own process; all objects of the history and fresh ones created after it are probed and compared with single-parser processes. "
+        "Schedules: two threads sharing one parser (interpreter, generated, optimised with lazily compiled regex, lazily unrolled repetition) and parse || from_grammar: every schedule with at most k preemptions at line granularity; each thread must observe what it observes sequentially. The first schedule is run twice to prove determinism.",
+        "Trusted: sys.settrace line events as scheduling points (switches inside one line and inside C calls are not enumerated); fork gives a pristine process. At most two threads and k preemptions. A free-running 8-thread pass is only a smoke test.",
+        "5/C15",
     ),
     "C16": (
         "exploration", "engine",
